@@ -23,7 +23,7 @@ PROP = "C37"
 LEVEL = "exploration"
 ENGINE = "enum"
 RULE = ("complete product: CFG shapes (<= N blocks, every block reachable) x bodies (<= L assignments per block) x branch "
-        "conditions, each run from every state of the register lattice; distinct = distinct graph; non-trivial = SSA placed "
+        "conditions x {IRDst in its own AssignBlock, IRDst set by the last AssignBlock of the body}, each run from every state of the register lattice; distinct = distinct graph; non-trivial = SSA placed "
         "at least one Phi")
 LEVEL_TEXT = ("Bounded-exhaustive enumeration of small connected IR graphs through the real SSA construction and out-of-SSA "
               "translation; structural SSA conditions decided with brute-force dominators, behaviour decided by an independent "
@@ -125,16 +125,17 @@ def states(A):
         yield {A.a: a, A.b: b, A.c: 3, A.r: 7, A.sp: 0x1000, A.zf: zf, A.END: 0xDEAD0000, A.pc: 0}
 
 
-def check_graph(n, shape_idx, body_idx, cond_idx, alphabet, CONDS=CONDS):
+def check_graph(n, shape_idx, body_idx, cond_idx, alphabet, CONDS=CONDS, merge=False):
     from miasm.analysis.ssa import SSADiGraph
     from miasm.analysis.outofssa import UnSSADiGraph
     from miasm.analysis.data_flow import DiGraphLivenessSSA
     from miasm.ir.ir import IRCFG
     shape = irgen.shapes(n)[shape_idx]
-    case = {"n": n, "shape": shape_idx, "bodies": body_idx, "conds": cond_idx, "alphabet": alphabet, "condnames": CONDS}
-    desc = irgen.describe(shape, body_idx, cond_idx, alphabet, CONDS)
-    g0 = irgen.build(shape, body_idx, cond_idx, alphabet, CONDS)
-    g = irgen.build(shape, body_idx, cond_idx, alphabet, CONDS)
+    case = {"n": n, "shape": shape_idx, "bodies": body_idx, "conds": cond_idx, "alphabet": alphabet, "condnames": CONDS,
+            "merge_irdst": merge}
+    desc = irgen.describe(shape, body_idx, cond_idx, alphabet, CONDS) + (" [IRDst set by the last AssignBlock of each body]" if merge else "")
+    g0 = irgen.build(shape, body_idx, cond_idx, alphabet, CONDS, merge_irdst=merge)
+    g = irgen.build(shape, body_idx, cond_idx, alphabet, CONDS, merge_irdst=merge)
     A = g.arch
     info = {"phi": False, "skipped_states": 0, "states": 0}
     vs = []
@@ -216,9 +217,10 @@ def _shard(args):
         shape = shapes[si]
         ncond = [len(CONDS) if len(s) == 2 else 1 for s in shape]
         for body_idx in itertools.product(bl, repeat=n):
-            for cond_idx in itertools.product(*[range(k) for k in ncond]):
+            for cond_idx, merge in itertools.product(itertools.product(*[range(k) for k in ncond]),
+                                                     (False, True) if any(body_idx) else (False,)):
                 cnt += 1
-                v, info = check_graph(n, si, body_idx, cond_idx, alphabet, CONDS)
+                v, info = check_graph(n, si, body_idx, cond_idx, alphabet, CONDS, merge)
                 skipped += info["skipped_states"]
                 states_run += info["states"]
                 if info["phi"]:
@@ -265,4 +267,4 @@ def run(ctx):
 
 def replay(case):
     return check_graph(case["n"], case["shape"], tuple(tuple(b) for b in case["bodies"]), tuple(case["conds"]), list(case["alphabet"]),
-                       list(case.get("condnames", CONDS)))[0]
+                       list(case.get("condnames", CONDS)), bool(case.get("merge_irdst")))[0]
